@@ -8,6 +8,7 @@
    ("token bytes never reveal the state plaintext") is a property of the cipher and is not a theorem here. *)
 From Coq Require Import List NArith ZArith Bool.
 From VGI Require Import Bytes Layout M_Token L_Token L_TokenServe.
+From VGI Require L_Base64Strict.
 Import ListNotations.
 Open Scope N_scope.
 
@@ -130,6 +131,42 @@ Print Assumptions C12_auth_failures_indistinguishable.
 Theorem C12_served_text_is_canonical : forall txt raw, decode_token true txt = Some raw -> txt = b64encode raw.
 Proof. exact served_text_canonical. Qed.
 Print Assumptions C12_served_text_is_canonical.
+
+(* ---- ... and conversely, for byte-string envelopes, the canonical text IS accepted: under the canonical check the
+        texts that open to [raw] are exactly { b64encode raw } ---- *)
+Theorem C12_canonical_texts_exactly_encodings : forall txt raw,
+  bytes_ok raw = true -> (decode_token true txt = Some raw <-> txt = b64encode raw).
+Proof. exact L_Base64Strict.decode_token_canonical_iff. Qed.
+Print Assumptions C12_canonical_texts_exactly_encodings.
+
+(* ---- the armour loses nothing: for EVERY envelope (byte string of any length) strict base64 decoding of its
+        encoding gives it back, [decode_token] accepts the encoding with and without the canonical-text check, and so
+        the text either mint produces opens -- under the server's own armour mode -- to exactly the envelope that was
+        armoured.  (proof/L_Base64Strict.v; the premise is what the AEAD and os.urandom return: bytes) ---- *)
+Theorem C12_armour_roundtrip :
+  (forall raw, bytes_ok raw = true -> b64decode (b64encode raw) = Some raw) /\
+  (forall canonical raw, bytes_ok raw = true -> decode_token canonical (b64encode raw) = Some raw) /\
+  (forall normalize_key aead_seal zstd_compress cfg i created call_id state nonce,
+     let env := seal_bytes normalize_key aead_seal (pack_plaintext zstd_compress (cursor_plaintext created call_id state))
+                           (c_key cfg) (compute_aad KCursor i) CURSOR_TOKEN_VERSION nonce in
+     bytes_ok env = true ->
+     decode_token (c_canonical cfg)
+       (seal_cursor_token normalize_key aead_seal zstd_compress cfg i created call_id state nonce) = Some env) /\
+  (forall normalize_key aead_seal zstd_compress cfg i created call_id cs ty sch isch sid nonce,
+     let env := seal_bytes normalize_key aead_seal
+                           (pack_plaintext zstd_compress (call_plaintext created call_id cs ty sch isch sid))
+                           (c_key cfg) (compute_aad KCall i) CALL_TOKEN_VERSION nonce in
+     bytes_ok env = true ->
+     decode_token (c_canonical cfg)
+       (seal_call_token normalize_key aead_seal zstd_compress cfg i created call_id cs ty sch isch sid nonce) = Some env).
+Proof. exact L_Base64Strict.armour_roundtrip. Qed.
+Print Assumptions C12_armour_roundtrip.
+(* the premise is met: a 26-byte envelope with high bytes, all three tail lengths *)
+Example C12_ex_armour : bytes_ok (5 :: repeat 255 24 ++ [200]) = true /\
+                        decode_token true (b64encode (5 :: repeat 255 24 ++ [200])) = Some (5 :: repeat 255 24 ++ [200]) /\
+                        decode_token true (b64encode [5; 255]) = Some [5; 255] /\
+                        decode_token true (b64encode [5; 255; 0]) = Some [5; 255; 0].
+Proof. vm_compute. repeat split; reflexivity. Qed.
 
 (* ---- "a server holding the same key": crypto.normalize_key (32 bytes: as is; otherwise SHA-256) sends distinct operator
         keys to distinct AEAD keys, except a key and its own 32-byte digest -- under collision-freeness of the hash ---- *)
